@@ -36,7 +36,7 @@ func (vc *VC) unicodePred(name string, arg string) string {
 	default:
 		return app(fn, arg)
 	}
-	if strings.Contains(arg, "?") {
+	if hasBound(arg) {
 		vc.sc.declAxiom(fn, fmt.Sprintf("(forall ((c Int)) (! (=> (and (>= c 0) (< c %s)) (= (%s c) %s)) :pattern ((%s c))))", limit, fn, body, fn), fn)
 		return app(fn, arg)
 	}
@@ -80,7 +80,7 @@ func (f *Frame) external(fn *ssa.Function, args []Val, c *ssa.CallCommon, pos to
 	case "strings.Count":
 		vc.sc.decl("strings.Count", "(declare-fun strings.Count (String String) Int)")
 		r := app("strings.Count", a(0), a(1))
-		if !strings.Contains(r, "?") {
+		if !hasBound(r) {
 			key := "inst:" + r
 			if !vc.sc.declSet[key] {
 				vc.sc.declSet[key] = true
@@ -177,7 +177,7 @@ func (f *Frame) external(fn *ssa.Function, args []Val, c *ssa.CallCommon, pos to
 			l, li := locElem(types.Typ[types.String])
 			row := vc.sc.define("sorted.row", "(Array Int String)", app("select", vc.he.get(f.cur, l, li.sort(vc.te)), app("s_arr", sl)))
 			off := app("s_off", sl)
-			f.assume(fmt.Sprintf("(forall ((?a Int) (?b Int)) (=> (and (<= %s ?a) (< ?a ?b) (< ?b (+ %s (s_len %s)))) (str.<= (select %s ?a) (select %s ?b))))", off, off, sl, row, row))
+			f.assume(fmt.Sprintf("(forall ((bv!!a Int) (bv!!b Int)) (=> (and (<= %s bv!!a) (< bv!!a bv!!b) (< bv!!b (+ %s (s_len %s)))) (str.<= (select %s bv!!a) (select %s bv!!b))))", off, off, sl, row, row))
 			return Val{}, false
 		}
 	case "sort.Slice", "sort.SliceStable":
@@ -194,14 +194,14 @@ func (f *Frame) external(fn *ssa.Function, args []Val, c *ssa.CallCommon, pos to
 				saved := vc.stack
 				savedReach := f.reach[f.curB]
 				vc.stack = nil
-				// quantify over absolute positions ?a < ?b of the backing array (plain select patterns)
+				// quantify over absolute positions bv!!a < bv!!b of the backing array (plain select patterns)
 				off := app("s_off", sl)
-				res, term := f.inline(lessFn, []Val{{t: app("-", "?b", off), typ: intT}, {t: app("-", "?a", off), typ: intT}}, args[1].bind)
+				res, term := f.inline(lessFn, []Val{{t: app("-", "bv!!b", off), typ: intT}, {t: app("-", "bv!!a", off), typ: intT}}, args[1].bind)
 				vc.stack = saved
 				f.reach[f.curB] = savedReach
 				vc.pure--
 				if !term && res.t != "" {
-					f.assume(fmt.Sprintf("(forall ((?a Int) (?b Int)) (=> (and (<= %s ?a) (< ?a ?b) (< ?b (+ %s (s_len %s)))) (not %s)))", off, off, sl, res.t))
+					f.assume(fmt.Sprintf("(forall ((bv!!a Int) (bv!!b Int)) (=> (and (<= %s bv!!a) (< bv!!a bv!!b) (< bv!!b (+ %s (s_len %s)))) (not %s)))", off, off, sl, res.t))
 				}
 			}
 			return Val{}, false
